@@ -114,7 +114,7 @@ fn seq_maps(dump: &Dump) -> (BTreeMap<Id, u32>, BTreeMap<u32, &ord::verif::Inscr
 
 // ================================================================= C03
 
-fn c03_oracle(obs: &Obs, cx: &Cx) -> CheckResult {
+pub fn c03_oracle(obs: &Obs, cx: &Cx) -> CheckResult {
   let stop = obs.stop;
   let (id_to_seq, entries) = seq_maps(obs.dump);
   let satpoints: BTreeMap<u32, SatPoint> = obs.dump.sequence_number_to_satpoint.iter().cloned().collect();
@@ -282,7 +282,7 @@ fn c03_check(case: &InscriptionCase, cx: &Cx) -> CheckResult {
 
 // ================================================================= C04
 
-fn c04_oracle(obs: &Obs, cx: &Cx) -> CheckResult {
+pub fn c04_oracle(obs: &Obs, cx: &Cx) -> CheckResult {
   let stop = obs.stop;
   let dump = obs.dump;
   let n = dump.entries.len() as u32;
